@@ -157,7 +157,7 @@ def parseIntText (cs : Chars) : Int :=
   | r => (nat r : Int)
 
 /-- `_scalar_node_from_value` for the serialized value of a leaf of type `tname` (`isEnum`: an enum name). -/
-def scalarNode (tname : String) (isEnum isSpecified : Bool) (v : J) : Option Lit :=
+def scalarNode (tname : String) (isEnum isSpecified : Bool) (v : J) (numStr : Bool := true) : Option Lit :=
   match v with
   | .bool b => some (.bool b)
   | .num n => if tname == "Int" then some (.int n) else if tname == "Float" then
@@ -172,7 +172,7 @@ def scalarNode (tname : String) (isEnum isSpecified : Bool) (v : J) : Option Lit
   | .str s =>
       if isEnum then some (.enum s.toList)
       else if tname == "ID" && isIntText s.toList then some (.int (parseIntText s.toList))
-      else if !isSpecified && isIntText s.toList then
+      else if numStr && !isSpecified && isIntText s.toList then
         (if minInt < parseIntText s.toList && parseIntText s.toList < maxInt then some (.int (parseIntText s.toList))
          else some (.float s.toList))
       else some (.str s.toList)      -- (custom scalars: the `float(s)` attempt is not modelled)
@@ -190,24 +190,24 @@ mutual
 /-- serialized value of a CUSTOM scalar → literal: the leaf rule of `_scalar_node_from_value`, and (fix I7) dicts /
     lists of a JSON-like scalar as object / list literals, entries by the same rule, `None` entries as `null`;
     a key that is not a Name has no literal form (`ValueError`). -/
-def customNode (tname : String) : J → Option Lit
-  | .obj [("$float", .str r)] => scalarNode tname false false (.obj [("$float", .str r)])
-  | .obj kvs => (customFields tname kvs).map .obj
-  | .arr xs => (customItems tname xs).map .list
-  | v => scalarNode tname false false v
-def customItems (tname : String) : List J → Option (List Lit)
+def customNode (tname : String) (numStr : Bool) : J → Option Lit
+  | .obj [("$float", .str r)] => scalarNode tname false false (.obj [("$float", .str r)]) numStr
+  | .obj kvs => (customFields tname numStr kvs).map .obj
+  | .arr xs => (customItems tname numStr xs).map .list
+  | v => scalarNode tname false false v numStr
+def customItems (tname : String) (numStr : Bool) : List J → Option (List Lit)
   | [] => some []
-  | .null :: xs => (customItems tname xs).map (Lit.null :: ·)
+  | .null :: xs => (customItems tname numStr xs).map (Lit.null :: ·)
   | x :: xs =>
-      match customNode tname x, customItems tname xs with
+      match customNode tname numStr x, customItems tname numStr xs with
       | some l, some ls => some (l :: ls)
       | _, _ => none
-def customFields (tname : String) : List (String × J) → Option (List (Chars × Lit))
+def customFields (tname : String) (numStr : Bool) : List (String × J) → Option (List (Chars × Lit))
   | [] => some []
-  | (k, .null) :: kvs => if isAsciiName k.toList then (customFields tname kvs).map ((k.toList, Lit.null) :: ·) else none
+  | (k, .null) :: kvs => if isAsciiName k.toList then (customFields tname numStr kvs).map ((k.toList, Lit.null) :: ·) else none
   | (k, v) :: kvs =>
       if isAsciiName k.toList then
-        match customNode tname v, customFields tname kvs with
+        match customNode tname numStr v, customFields tname numStr kvs with
         | some l, some ls => some ((k.toList, l) :: ls)
         | _, _ => none
       else none
@@ -255,15 +255,15 @@ end
 mutual
 /-- `ast_node_from_value(value, type)`; `none` = the function raises. Fuel bounds the walk through named
     input-object types (each step consumes the value or the type). -/
-def litOf (s : SchemaD) : Nat → Ty → J → Option Lit
+def litOfG (s : SchemaD) (ns : Bool) : Nat → Ty → J → Option Lit
   | 0, _, _ => none
   | fuel+1, .nonNull t, v =>
-      match litOf s fuel t v with
+      match litOfG s ns fuel t v with
       | some .null => none
       | r => r
   | _+1, _, .null => some .null
-  | fuel+1, .list t, .arr xs => (litOfList s fuel t xs).map .list
-  | fuel+1, .list t, v => litOf s fuel t v
+  | fuel+1, .list t, .arr xs => (litOfList s ns fuel t xs).map .list
+  | fuel+1, .list t, v => litOfG s ns fuel t v
   | fuel+1, .named n, v =>
       match s.findType n with
       | none => none
@@ -271,23 +271,23 @@ def litOf (s : SchemaD) : Nat → Ty → J → Option Lit
         match td.kind with
         | .input =>
             match v with
-            | .obj kvs => (litOfFields s fuel (td.inputFields.map (·.pythonName)) td.inputFields kvs).map .obj
+            | .obj kvs => (litOfFields s ns fuel (td.inputFields.map (·.pythonName)) td.inputFields kvs).map .obj
             | _ => none
         | .enum =>
             match enumNameOf td.values v with
             | some nm => scalarNode n true false (.str nm)
             | none => none
-        | .scalar => if specifiedScalars.contains n then scalarNode n false true v else customNode n v
+        | .scalar => if specifiedScalars.contains n then scalarNode n false true v else customNode n ns v
         | _ => none
-def litOfList (s : SchemaD) : Nat → Ty → List J → Option (List Lit)
+def litOfList (s : SchemaD) (ns : Bool) : Nat → Ty → List J → Option (List Lit)
   | 0, _, _ => none
   | _+1, _, [] => some []
   | fuel+1, t, x :: xs =>
-      match litOf s fuel t x, litOfList s fuel t xs with
+      match litOfG s ns fuel t x, litOfList s ns fuel t xs with
       | some l, some ls => some (l :: ls)
       | _, _ => none
 /-- `_object_value_node_from_value`: fields in the order of the TYPE's fields, those present in the value -/
-def litOfFields (s : SchemaD) : Nat → List String → List ArgD → List (String × J) → Option (List (Chars × Lit))
+def litOfFields (s : SchemaD) (ns : Bool) : Nat → List String → List ArgD → List (String × J) → Option (List (Chars × Lit))
   | 0, _, _, _ => none
   | _+1, _, [], _ => some []
   | fuel+1, pyNames, f :: fs, kvs =>
@@ -296,12 +296,18 @@ def litOfFields (s : SchemaD) : Nat → List String → List ArgD → List (Stri
       -- Python names of ALL fields of the type.
       match kvs.find? (·.1 == (if !(kvs.find? (·.1 == f.pythonName)).isSome && !pyNames.contains f.name then f.name else f.pythonName)) with
       | some (_, v) =>
-          match litOf s fuel f.type v, litOfFields s fuel pyNames fs kvs with
+          match litOfG s ns fuel f.type v, litOfFields s ns fuel pyNames fs kvs with
           | some l, some ls => some ((f.name.toList, l) :: ls)
           | _, _ => none
       | none =>
-          if f.type.isNonNull && !f.hasDefault then none else litOfFields s fuel pyNames fs kvs
+          if f.type.isNonNull && !f.hasDefault then none else litOfFields s ns fuel pyNames fs kvs
 end
+
+/-- the literal form the SDL printer prints (`numeric_strings=True`: strings a custom scalar serializes to are
+    printed as numbers when they spell one) -/
+abbrev litOf (s : SchemaD) := litOfG s true
+/-- the literal form introspection reports (fix I11, `numeric_strings=False`: strings stay strings at every depth) -/
+abbrev litOfStrict (s : SchemaD) := litOfG s false
 
 /-! ### literals: reading -/
 
@@ -464,6 +470,10 @@ def escapeWith (tbl : List (Char × Chars)) (cs : Chars) : Chars :=
     here: the correspondence compares the outcome) -/
 def printAstOfValue (s : SchemaD) (v : J) (t : Ty) : Option Chars :=
   (litOf s 64 t v).map printLit
+
+/-- `print_ast(ast_node_from_value(v, t, numeric_strings=False))` -/
+def printAstOfValueStrict (s : SchemaD) (v : J) (t : Ty) : Option Chars :=
+  (litOfStrict s 64 t v).map printLit
 
 end Prims
 
